@@ -134,6 +134,13 @@ func genVideoNoise(r *engine.Rand, sc *engine.Scenario, total uint64, n int, ext
 		}
 		sc.Events = append(sc.Events, ev)
 	}
+	if r.Chance(1, 3) {
+		for i, k := 0, r.Range(1, 3); i < k; i++ {
+			if at := lineStartBoundary(r); at < total {
+				sc.Events = append(sc.Events, engine.Event{At: at, K: "bus_w", A: 0xff44, V: r.Byte()})
+			}
+		}
+	}
 	sortEvents(sc.Events)
 	on := true
 	for i := range sc.Events {
@@ -152,6 +159,18 @@ func genVideoNoise(r *engine.Rand, sc *engine.Scenario, total uint64, n int, ext
 			}
 		}
 	}
+}
+
+// lineStartBoundary picks a boundary within two cycles of the start of one of the lines at which
+// something begins, in the first or second frame after power-on (the first line of the first frame is
+// two cycles short).
+func lineStartBoundary(r *engine.Rand) uint64 {
+	line := engine.Pick(r, []int{0, 1, 2, 143, 144, 144, 144, 145, 152, 153}) + 154*r.Intn(2)
+	at := 1 + line*114 - 2 + r.Range(-2, 2)
+	if at < 1 {
+		at = 1
+	}
+	return uint64(at)
 }
 
 // installObjects fills OAM (side-effect-free poke) with objects spread over the screen.
@@ -201,6 +220,33 @@ func (c13) Generate(r *engine.Rand, index int, tier string) *engine.Scenario {
 		sc.Events = append(sc.Events, engine.Event{At: at, K: "bus_w", A: 0xff40, V: r.Byte() &^ 0x80})
 		sc.Events = append(sc.Events, engine.Event{At: at + uint64(r.Range(1, 400)), K: "bus_w", A: 0xff40, V: r.Byte() | 0x80})
 		sc.Cycles = sc.Events[1].At + uint64(r.Range(200, 18000))
+		return sc
+	}
+	if index%2800 == 77 {
+		// the LCD stays on for more than 256 frames (4.3 emulated seconds) without a restart
+		sc.Class = "long-on"
+		sc.Cycles = 17556*uint64(r.Range(257, 262)) + uint64(r.Intn(17556))
+		for i, n := 0, r.Intn(12); i < n; i++ {
+			sc.Events = append(sc.Events, engine.Event{At: uint64(r.Intn(int(sc.Cycles))), K: "bus_w", A: engine.Pick(r, []uint16{0xff42, 0xff43, 0xff47, 0xff44, 0xff4a}), V: r.Byte()})
+		}
+		sortEvents(sc.Events)
+		return sc
+	}
+	if index%12 == 1 {
+		// stores to the read-only LY register in the first cycles of the lines at which something begins
+		// (frame start, first and last visible line, vertical blank, last line), LCD on throughout
+		sc.Class = "ly-store"
+		total := 2*17556 + uint64(r.Intn(3000))
+		for i, n := 0, r.Range(1, 4); i < n; i++ {
+			sc.Events = append(sc.Events, engine.Event{At: lineStartBoundary(r), K: "bus_w", A: 0xff44, V: r.Byte()})
+		}
+		sortEvents(sc.Events)
+		for i := 1; i < len(sc.Events); i++ {
+			if sc.Events[i].At <= sc.Events[i-1].At {
+				sc.Events[i].At = sc.Events[i-1].At + 1
+			}
+		}
+		sc.Cycles = total
 		return sc
 	}
 	sc.Class = "random"
